@@ -106,3 +106,60 @@ def declare_ed25519(E):
                params={"self": "obj:Ed25519Key", "filename": "opt[str]", "file_obj": "opt[opaque:File]", "data": "bytes",
                        "password": "opt[str]", "signing_key": "opt[opaque:NaclSigningKey]"},
                returns="none", raises=dict(ALLOWED), modifies=[])
+
+
+def declare_decode(E):
+    """RSAKey / ECDSAKey._decode_key: whatever (format, bytes) pair the file parsers hand over - numbers that do not fit
+    together, a key of another type inside the block - the failure is an SSHException.  Library behaviour assumed from
+    probing: load_der_private_key returns a key of whatever type the DER holds, or raises ValueError / TypeError /
+    UnsupportedAlgorithm; RSAPrivateNumbers(...).private_key() raises ValueError for inconsistent numbers."""
+    from contracts import message
+    message.declare(E)
+    E.auto_opaque = True
+    R = "paramiko.rsakey.RSAKey."
+    C = "paramiko.ecdsakey.ECDSAKey."
+    RA_LIB = {"ValueError": "True", "TypeError": "True", "UnsupportedAlgorithm": "True"}
+    E.declare_class("paramiko.rsakey.RSAKey", {"key": "opt[opaque:AnyPriv]"})
+    E.declare_class("paramiko.ecdsakey.ECDSAKey", {"signing_key": "opt[opaque:AnyPriv]", "verifying_key": "opt[opaque:AnyPub]",
+                                                    "ecdsa_curve": "opt[opaque:CurveInfo]"})
+    # a key object of a type only known at run time: ghost lib_key_kind says which (0 RSA, 1 EC, 2 something else)
+    E.declare_ghost(lib_key_kind="int")
+    for mod in ("paramiko.rsakey", "paramiko.ecdsakey"):
+        E.contract(mod + ".serialization.load_der_private_key", argnames=["data", "password", "backend"], returns="opaque:AnyPriv",
+                   raises=dict(RA_LIB))
+    E.contract("cryptography.hazmat.primitives.serialization.load_der_private_key", argnames=["data", "password", "backend"],
+               returns="opaque:AnyPriv", raises=dict(RA_LIB))
+    E.contract(R + "_uint32_cstruct_unpack", params={"data": "bytes", "strformat": "str"}, returns="tuple[int,int,int,int,int,int]",
+               raises={"SSHException": "True"}, modifies=[])
+    E.contract("paramiko.pkey.PKey._got_bad_key_format_id", params={"id_": "int"}, returns="none", noreturn=True, raises={"SSHException": "True"}, modifies=[])
+    E.contract(R + "_got_bad_key_format_id", params={"id_": "int"}, returns="none", noreturn=True, raises={"SSHException": "True"}, modifies=[])
+    E.contract(C + "_got_bad_key_format_id", params={"id_": "int"}, returns="none", noreturn=True, raises={"SSHException": "True"}, modifies=[])
+    E.contract("cryptography.hazmat.primitives.asymmetric.rsa.RSAPublicNumbers", argnames=["e", "n"], returns="opaque:RsaPubNums",
+               constructor=True, raises={"TypeError": "True"})
+    E.contract("cryptography.hazmat.primitives.asymmetric.rsa.RSAPrivateNumbers",
+               argnames=["p", "q", "d", "dmp1", "dmq1", "iqmp", "public_numbers"], returns="opaque:RsaPrivNums", constructor=True,
+               raises={"TypeError": "True"})
+    E.contract("RsaPrivNums.private_key", argnames=["self", "backend"], returns="opaque:AnyPriv",
+               raises={"ValueError": "True", "TypeError": "True"})
+    E.contract("paramiko.rsakey.default_backend", argnames=[], returns="opaque:Backend")
+    E.contract("paramiko.ecdsakey.default_backend", argnames=[], returns="opaque:Backend")
+    E.contract(R + "_decode_key", params={"data": "tuple[int,bytes]"}, returns="none",
+               ensures={"a_key_is_installed": "notnone(self.key)"},
+               raises={"SSHException": "True"})
+
+
+def own_read_file():
+    """PKey._read_private_key_file in its own environment: the text-mode read may raise UnicodeDecodeError (a file that is
+    not text); what comes out is SSHException / PasswordRequiredException, or OSError for a file that cannot be read"""
+    P = "paramiko.pkey.PKey."
+    cs = {
+        "builtins.open": dict(argnames=["file", "mode"], returns="opaque:TextFile", raises={"OSError": "True"}),
+        "TextFile.__enter__": dict(argnames=["self"], returns="expr:self"),
+        "TextFile.__exit__": dict(argnames=["self", "a", "b", "c"], returns="none"),
+        P + "_read_private_key": dict(params={"tag": "str", "f": "opaque:TextFile", "password": "opt[str]"}, returns="tuple[int,bytes]",
+                                      raises={"SSHException": "True", "PasswordRequiredException": "True", "UnicodeDecodeError": "True"},
+                                      modifies=[]),
+    }
+    return {"+replace": True, "params": {"tag": "str", "filename": "str", "password": "opt[str]"}, "returns": "tuple[int,bytes]",
+            "raises": {"SSHException": "True", "PasswordRequiredException": "True", "OSError": "True"}, "modifies": [],
+            "+contracts": cs, "+engine": {"auto_opaque": True}}
